@@ -3,3 +3,4 @@ pub mod tex_arith;
 pub mod liang;
 pub mod hpack;
 pub mod dvi_track;
+pub mod ligkern_interp;
